@@ -141,7 +141,9 @@ def run(ctx):
         rows = common.ndjson_read(tp)
         total_traces += len(ks)
         total_steps += sum(len(s) for s in ks)
-        validate(ctx, kind, tp, rows)
+        base = validate(ctx, kind, tp, rows)
+        if kind == kinds[0]:
+            negative_control(ctx, kind, rows, set(int(m[1]) for m in base))
         if len(samples) < 3:
             samples.append({'store': kind, 'trace': [r_ for r_ in rows[1:6]]})
     for s in scripts:
@@ -169,19 +171,19 @@ def run(ctx):
                         'Mongo store not covered (no server in the sandbox; the statement lists memory, file and SQL)']
 
 
-def validate(ctx, kind, trace_path, rows):
+def validate(ctx, kind, trace_path, rows, control=False):
     """V: TLC replays the recorded trace through Store!Apply"""
     with open(trace_path) as f:
         content = f.read()
     r = ctx.tlc('StoreTrace.tla', 'StoreTrace.cfg', workers=1, files={'trace.ndjson': content}, timeout=1800)
     out = r['out']
-    mism = re.findall(r'<<"MISMATCH", (\d+), ("[^"]*"|\d+), (\d+), (.*)>>', out)
-    if 'Error:' in out and 'AllConsumed' not in out and not mism:
-        raise common.Infra('StoreTrace failed on %s trace:\n%s' % (kind, out[-3000:]))
-    if r['rc'] != 0 and not mism:
-        raise common.Infra('StoreTrace did not accept the %s trace (rc=%d):\n%s' % (kind, r['rc'], out[-3000:]))
+    mism = common.printed(out, 'MISMATCH')
+    if r['rc'] != 0 or 'Model checking completed. No error has been found.' not in out:
+        raise common.Infra('StoreTrace did not run to completion on the %s trace (rc=%d):\n%s' % (kind, r['rc'], out[-3000:]))
+    if control:
+        return mism
     for m in mism:
-        line = int(m[0])
+        line = int(m[1])
         row = rows[line - 1]
         # the whole script up to the failing step is the replay
         start = line - 1
@@ -190,8 +192,24 @@ def validate(ctx, kind, trace_path, rows):
         steps = [{'sid': x['sid'], 'ev': x['ev']} for x in rows[start + 1:line]]
         sig = {'family': 'store', 'store': kind, 'op': row['ev'].get('k'), 'err': bool(row['ret'].get('err'))}
         what = '%s store: %s returned %s / %s, abstract store says %s' % (
-            kind, json.dumps(row['ev']), json.dumps(row['ret']), json.dumps(row['post']), m[3][:300])
+            kind, json.dumps(row['ev']), json.dumps(row['ret']), json.dumps(row['post']), json.dumps(m[4:])[:300])
         ctx.report(sig, what, {'kind': kind, 'steps': steps, 'observed': row})
+    return mism
+
+
+def negative_control(ctx, kind, rows, baseline):
+    """binding demonstration (DESIGN 4.4): one corrupted field must be rejected at exactly that line"""
+    import copy
+    head = copy.deepcopy(rows[:40])
+    k = next(i for i, r_ in enumerate(head) if r_['ev'].get('k') not in ('TraceReset',) and i > 3)
+    head[k]['post']['ns'] += 1
+    tp = os.path.join(ctx.scratch, 'control.ndjson')
+    common.ndjson_write(tp, head)
+    mism = validate(ctx, kind, tp, head, control=True)
+    flagged = set(int(m[1]) for m in mism)
+    if k + 1 not in flagged or not (flagged - {k + 1}) <= baseline:
+        raise common.Infra('negative control failed: corrupted line %d, validator flagged %s' % (k + 1, [m[1] for m in mism]))
+    ctx.notes.append('negative control: corrupted counter at trace line %d rejected by StoreTrace' % (k + 1))
 
 
 def replay(ctx, path):
